@@ -15,10 +15,15 @@ type MemoryStore struct {
 
 // Get fetches the data stored in `key` and unmarshals it into `value`.
 func (s *MemoryStore) Get(key string, value interface{}) error {
+	vhook("rlock-req", "store", &s.mu)
 	s.mu.RLock()
+	vhook("rlock-acq", "store", &s.mu)
 	defer s.mu.RUnlock()
+	defer vhook("runlock", "store", &s.mu)
 
+	vhook("read", "data", &s.mu)
 	v, ok := s.data[key]
+	vhook("read-end", "data", &s.mu)
 	if !ok {
 		return ErrNotFound
 	}
@@ -27,8 +32,11 @@ func (s *MemoryStore) Get(key string, value interface{}) error {
 
 // Put marshals `value` and stores it in `key`.
 func (s *MemoryStore) Put(key string, value interface{}) error {
+	vhook("lock-req", "store", &s.mu)
 	s.mu.Lock()
+	vhook("lock-acq", "store", &s.mu)
 	defer s.mu.Unlock()
+	defer vhook("unlock", "store", &s.mu)
 	if s.data == nil {
 		s.data = map[string]string{}
 	}
@@ -37,15 +45,22 @@ func (s *MemoryStore) Put(key string, value interface{}) error {
 	if err != nil {
 		return err
 	}
+	vhook("write", "data", &s.mu)
 	s.data[key] = string(buf)
+	vhook("write-end", "data", &s.mu)
 	return nil
 }
 
 // Delete removes `key`
 func (s *MemoryStore) Delete(key string) error {
+	vhook("lock-req", "store", &s.mu)
 	s.mu.Lock()
+	vhook("lock-acq", "store", &s.mu)
 	defer s.mu.Unlock()
+	defer vhook("unlock", "store", &s.mu)
+	vhook("write", "data", &s.mu)
 	delete(s.data, key)
+	vhook("write-end", "data", &s.mu)
 	return nil
 }
 
@@ -54,10 +69,12 @@ func (s *MemoryStore) Delete(key string) error {
 // then List("a") would produce []string{"a", "b"}
 func (s *MemoryStore) List(prefix string) ([]string, error) {
 	rv := []string{}
+	vhook("read", "data", &s.mu)
 	for k := range s.data {
 		if strings.HasPrefix(k, prefix) {
 			rv = append(rv, strings.TrimPrefix(k, prefix))
 		}
 	}
+	vhook("read-end", "data", &s.mu)
 	return rv, nil
 }
